@@ -31,8 +31,9 @@ Record cfg := mkCfg {
   c_tbl_norm : normk;        (* key normalisation in reader.table *)
   c_assign_first : bool;     (* the registry is written before catalog.add_table is called *)
   c_skip_own_ctes : bool;    (* session.sql: a table reference named like a CTE of the query itself is left alone *)
-  c_user_refs_only : bool }. (* session.sql: only the references of the user's query are retargeted, not the equal-
+  c_user_refs_only : bool;   (* session.sql: only the references of the user's query are retargeted, not the equal-
                                 looking ones inside the added view CTEs *)
+  c_hash_user_ctes : bool }. (* session.sql: the CTEs the user named are renamed (hash names) when the frame is built *)
 
 Definition cfg_ok (c : cfg) : bool :=
   c_frozen c && c_copy c && c_views_first c
@@ -228,6 +229,12 @@ Definition qualify (cache : list (string * list string)) (q : query) : option qu
 Definition lower_query (q : query) : query :=
   mkQuery (map (fun c => (lower (fst c), ren_sq lower (snd c))) (q_ctes q)) (ren_sq lower (q_main q)).
 
+(** the names session.sql gives to the query's own CTEs (model: the counter after the name of the frozen main SELECT) *)
+Fixpoint number_from (k : nat) (l : list string) : list (string * string) :=
+  match l with [] => [] | n :: l' => (n, fresh k) :: number_from (S k) l' end.
+Definition user_cte_names (next : nat) (q1 : query) : list (string * string) :=
+  number_from (S next) (map fst (q_ctes q1)).
+
 (** * the model's state machine *)
 Record state := mkSt {
   s_views : registry;
@@ -320,11 +327,13 @@ Section Machine.
                                  | Some d => is_some (last_name (d_chain d)) | None => true end)
                        (view_refs (c_skip_own_ctes c) q1 (s_views st))
             then
-              let sp := splice (c_skip_own_ctes c) (c_user_refs_only c) q1 (s_views st) in
+              let sp0 := splice (c_skip_own_ctes c) (c_user_refs_only c) q1 (s_views st) in
               let nm := fresh (s_next st) in
+              let k := List.length (q_ctes q1) in
+              let sp := if c_hash_user_ctes c then alpha_ctes (user_cte_names (s_next st) q1) sp0 else sp0 in
               let d := mkDf (q_ctes sp ++ [(nm, q_main sp)])
                             (QSel (FName nm) [] (sel_of_static (static_cols (q_main sp))) false) in
-              (push st (Some d) 1, ODf d)
+              (push st (Some d) (S k), ODf d)
             else (push st None 0, OErr)
         end
     | SWhere h e =>
